@@ -1,5 +1,22 @@
+//! Engine E1 `model-mon`: monitors over the real `gmsol-model` crate (C01–C14).
+mod arith;
+mod hist;
+pub mod monmarket;
+
 fn main() {
     let args = vcommon::Args::parse();
-    eprintln!("no monitor for {}", args.id);
-    std::process::exit(2);
+    let code = match args.id.as_str() {
+        "C01" | "C02" | "C03" => arith::run(&args),
+        "C04" | "C05" | "C06" | "C07" | "C08" | "C09" | "C10" | "C11" | "C12" | "C13" | "C14" => {
+            hist::run(&args)
+        }
+        _ => None,
+    };
+    match code {
+        Some(c) => std::process::exit(c),
+        None => {
+            eprintln!("model-mon: no monitor for {}", args.id);
+            std::process::exit(2)
+        }
+    }
 }
